@@ -55,6 +55,11 @@ type XWorkbook struct {
 	// RelsInfraFirst: /_rels/.rels lists the officeDocument relationship last and
 	// workbook.xml.rels lists sharedStrings / styles / theme before the worksheets
 	RelsInfraFirst bool
+	// RelsInfraMixed: the other relationships are interleaved with the part relationships (one
+	// after every part relationship while there are any), and /_rels/.rels lists officeDocument in the middle
+	RelsInfraMixed bool
+	// Strict: the ISO/IEC 29500 Strict conformance class (purl.oclc.org namespaces and relationship types)
+	Strict bool
 	// Spelling of workbook.xml, its relationships, /_rels/.rels and of the cell / row attributes
 	Sp Spelling
 }
@@ -222,15 +227,32 @@ func (w *XWorkbook) Members() []Member {
 		tail = append(tail, mem("xl/styles.xml", stylesXML), mem("xl/theme/theme1.xml", themeXML),
 			mem("docProps/core.xml", corePropsXML("workbook")), mem("docProps/app.xml", appPropsXML("verif")))
 	}
-	if w.RelsInfraFirst {
+	if w.RelsInfraFirst || w.RelsInfraMixed {
 		n := 0
 		for _, sh := range w.Sheets {
 			if sh.RelPos > 0 {
 				n++
 			}
 		}
-		rels = append(append([]Rel{}, rels[n:]...), rels[:n]...)
-		root = append(append([]Rel{}, root[1:]...), root[0])
+		parts, others := rels[:n], rels[n:]
+		if w.RelsInfraFirst {
+			rels = append(append([]Rel{}, others...), parts...)
+			root = append(append([]Rel{}, root[1:]...), root[0])
+		} else {
+			rels = nil
+			for i, pr := range parts {
+				rels = append(rels, pr)
+				if i < len(others) {
+					rels = append(rels, others[i])
+				}
+			}
+			if len(others) > len(parts) {
+				rels = append(rels, others[len(parts):]...)
+			}
+			if len(root) > 2 {
+				root = []Rel{root[1], root[0], root[2]}
+			}
+		}
 	}
 	infra := []Member{
 		mem("[Content_Types].xml", contentTypesXML(ov)),
@@ -247,7 +269,7 @@ func (w *XWorkbook) Members() []Member {
 			parts = append(parts, mem(s.PartName, SheetXMLSp(s, w.Sp)))
 		}
 	}
-	return order(infra, parts, w.InfraFirst)
+	return strictify(order(infra, parts, w.InfraFirst), w.Strict)
 }
 
 // sortedBy returns the items with key > 0 in increasing key order.
